@@ -20,6 +20,7 @@ import (
 	"runtime/debug"
 	"sort"
 	"strings"
+	"time"
 
 	"verif/kit"
 
@@ -83,7 +84,13 @@ func globals() native.Declarations {
 	md := native.Markdown("# title *x*")
 	long := longValue
 	var err error = errors.New("an <error>")
+	tm := time.Date(2020, 2, 3, 4, 5, 6, 7000000, time.UTC)
+	tms := []time.Time{tm, tm.Add(time.Hour)}
+	u8, big, neg, cx := uint8(200), int64(1)<<62, -17.25, complex(1, -2)
+	nested := map[string]any{"a": []any{1, map[string]any{"b": []int{1, 2}, "c": S{A: 1, B: "<", C: []string{"x"}}}, nil, "s\"<"}, "t": tm, "z": map[int]string{2: "b", 1: "a"}}
+	esc := "<&>\"'\\/\n\u2028 é?=#%+"
 	return native.Declarations{
+		"tm": &tm, "tms": &tms, "u8": &u8, "big": &big, "neg": &neg, "cx": &cx, "nested": &nested, "esc": &esc,
 		"s": &s, "q": &q, "e": &e, "n": &n, "f": &f, "b": &b, "nb": &nb, "lb": &lb, "m": &m, "sl": &sl, "st": &st, "h": &h, "md": &md, "long": &long, "err": &err,
 	}
 }
@@ -135,6 +142,19 @@ func templates(tier string) []tcase {
 		one("md-value", "html", "A{{ md }}B<p title=\"{{ n }}\">{{ md }}</p>Z"),
 		one("md-conversion", "html", "A{{ html(md) }}B{% var x = html(md) %}{{ x }}Z"),
 		{name: "md-extends", entry: "index.md", files: map[string]string{"index.md": "{% extends \"layout.html\" %}{% macro Body %}# B {{ s }}{% end %}", "layout.html": "<html>{{ Body() }}</html>"}},
+		// errors that pass through a converter (more shapes)
+		one("md-value-in-loop", "html", "A{% for i := 0; i < 2; i++ %}[{{ md }}]{% end %}Z"),
+		one("md-macro-args", "html", "{% macro M(x string) markdown %}# {{ x }}\n\ntext {{ n }}{% end %}A{{ M(s) }}B{{ M(\"k\") }}Z"),
+		{name: "md-render-nested", entry: "index.html", files: map[string]string{"index.html": "A{{ render \"p.md\" }}B{{ render \"q.html\" }}Z", "p.md": "# T {{ s }}\n\n{{ render \"r.md\" }}\n", "r.md": "inner *{{ n }}*\n", "q.html": "<q>{{ render \"r.md\" }}</q>"}},
+		{name: "md-imported-macro", entry: "index.html", files: map[string]string{"index.html": "{% import \"m.md\" %}A{{ Doc(s) }}Z", "m.md": "{% macro Doc(x string) %}## {{ x }}{% end %}"}},
+		// value shapes that go through other writer paths
+		one("time-js-json", "html", "<script>var t = {{ tm }}; var u = {{ tms }};</script><script type=\"application/ld+json\">{\"t\": {{ tm }}, \"u\": {{ tms }}}</script>Z"),
+		one("numbers", "html", "<p>{{ n }}{{ f }}{{ u8 }}{{ big }}{{ neg }}{{ cx }}</p><script>x = [{{ n }}, {{ f }}, {{ big }}, {{ neg }}];</script><style>a { width: {{ n }}px; height: {{ f }}em }</style>Z"),
+		one("nested-js-json", "html", "<script>var a = {{ nested }};</script><script type=\"application/ld+json\">{{ nested }}</script>Z"),
+		one("show-statements", "html", "A{%% show s; show n %%}B{% show h %}C{%% show \"lit\", f %%}Z"),
+		one("url-long-query", "html", "<a href=\"/p?{{ q }}&a={{ long }}&b={{ s }}#{{ long }}\">x</a><img srcset=\"{{ long }} 1x, /i?{{ s }} 2x\">Z"),
+		{name: "render-partials-nested", entry: "index.html", files: map[string]string{"index.html": "A{{ render \"a.html\" }}B{{ render \"c.js\" }}Z", "a.html": "<a>{{ s }}{{ render \"b.html\" }}</a>", "b.html": "<b>{{ n }}</b>", "c.js": "var c = {{ m }};"}},
+		one("escapes-every-context", "html", "<p>{{ esc }}</p><a title=\"{{ esc }}\" data-x={{ esc }} href=\"/{{ esc }}?{{ esc }}\">x</a><script>a = {{ esc }}; b = \"{{ esc }}\";</script><style>a { b: \"{{ esc }}\" }</style>Z"),
 		one("long-text", "html", longText+"{{ n }}"+longText),
 		one("long-show", "html", "A{{ long }}B<a href=\"{{ long }}\">x</a><script>var x = {{ long }};</script>Z"),
 		// templates that recover
@@ -390,6 +410,30 @@ func spaces(tier string) []kit.Space {
 			return map[string]any{"template": b.tc.name, "files": b.tc.files, "entry": b.tc.entry, "failing_write": k, "writes_in_clean_run": len(b.clean), "shape": shape}
 		},
 	}}
+	sps = append(sps, structureSpace())
+	// cancellation racing with the failure: the templates that do not recover, every k
+	var cbs []*built
+	var coffs []uint64
+	ctot := uint64(0)
+	for _, b := range bs {
+		if b.tc.scope != "" || len(b.clean) > 150 {
+			continue
+		}
+		cbs = append(cbs, b)
+		coffs = append(coffs, ctot)
+		ctot += uint64(len(b.clean)) * 2
+	}
+	clocate := func(i uint64) (*built, int, int) {
+		j := sort.Search(len(coffs), func(j int) bool { return coffs[j] > i }) - 1
+		r := i - coffs[j]
+		return cbs[j], int(r/2) + 1, int(r % 2)
+	}
+	sps = append(sps, kit.Space{Name: "cancel-race", Size: ctot,
+		Eval: func(i uint64) kit.Outcome { b, k, mode := clocate(i); return evalCancel(b, k, mode) },
+		Describe: func(i uint64) any {
+			b, k, mode := clocate(i)
+			return map[string]any{"template": b.tc.name, "files": b.tc.files, "failing_write": k, "mode": cancelModes[mode]}
+		}})
 	if len(broken) > 0 {
 		sps = append(sps, kit.Space{
 			Name: "unusable-templates",
@@ -408,10 +452,13 @@ func main() {
 	kit.Main(&kit.Check{
 		ID:    "C13",
 		Level: "fault_enumeration",
-		Rule:  "for every template of the list: every failing Write index k = 1..W (W = Write calls of a clean run) × 3 failure shapes {(0,E), (len/2,E), (len,E)}. Complete in k. Every case is non-trivial (a real write fails during rendering)",
+		Rule:  "write-faults: for every template of the list, every failing Write index k = 1..W (W = Write calls of a clean run) × 3 failure shapes {(0,E), (len/2,E), (len,E)}; panic-structure: 3 placements of the core (body, macro, imported macro) × 7 deferred kinds of the core × 4 deferred kinds of the body (incl. deferred macros that write, one of them recovering) × {no own panic, own panic before / after the second text} × every failure set {k} and {k, k2} over the 8 possible write calls; cancel-race: every template that does not recover × every k × {context cancelled by the writer at the failing write, at the write before}. Complete in k. A case is non-trivial when a write really fails",
 		Assumptions: []string{
-			"the template list is fixed (41 templates in quick, plus a 16 contexts × 14 values grid in thorough); faults are single (one failing call, later calls succeed)",
+			"the template list is fixed (56 templates in quick, plus a 16 contexts × 14 values grid in thorough); faults are single (one failing call, later calls succeed)",
 			"the Markdown converter is a host function that writes in three calls and returns the first write error",
+			"panic-structure: the expected Write calls and the end of the run come from a mirror of the template written with Go's own defer/panic/recover, a failed write being a panic raised by the write as documented; Run must return an error with errors.Is(err, E) when that panic is what ends the run (identity == E is reported as an outcome class, not demanded), nil when it was recovered, a *PanicError with the template's own value when a later panic ends it",
+			"cancel-race: the writer sleeps 2 ms after cancel() so that the interpreter's watcher has seen the cancellation when Write returns (deterministic ordering); if the failing write was reached the property demands the writer's error, otherwise the context's error is the documented result",
+			"a macro deferred INSIDE a macro is not part of the family: on the current tree its output is dropped and its recover() has no effect even with a healthy writer (reported separately)",
 			"for templates that recover: Go semantics — execution continues after the function that deferred the recovering call",
 		},
 		Spaces: spaces,
